@@ -491,16 +491,18 @@ fn body_insert<K: KB, const N: usize>(h: [usize; N], who: Who, new_level: Option
         }
         i += 1;
     }
-    // witnesses (few: every cover is one more solver round)
-    if N >= 2 && who != Who::New {
-        kani::cover!(pos == Some(0) && snap_find(&sn, key) == Some(N - 1), "first member re-scored to the last position");
-    }
-    if N >= 1 && who != Who::Existing {
-        kani::cover!(pos.is_none() && score == s[0] && snap_find(&sn, key) == Some(0), "new member with a score equal to the first member's, ordered by member");
-    }
-    if N == 0 {
-        kani::cover!(score.to_bits() == (-0.0f64).to_bits(), "-0.0 into the empty list");
-    }
+    // ONE witness per harness (every cover is one more solver round; a cover under a condition
+    // that is constant-false for this instantiation would be reported as unsatisfiable)
+    let w = if N >= 2 && who != Who::New {
+        // re-score across all neighbours
+        pos == Some(0) && snap_find(&sn, key) == Some(N - 1)
+    } else if N >= 1 && who != Who::Existing {
+        // equal scores: ordered by member
+        pos.is_none() && score == s[0] && snap_find(&sn, key) == Some(0)
+    } else {
+        score.to_bits() == (-0.0f64).to_bits()
+    };
+    kani::cover!(w, "witness: re-score across neighbours / equal scores ordered by member / -0.0");
     std::mem::forget(l);
 }
 
@@ -529,10 +531,8 @@ fn body_remove<K: KB, const N: usize>(h: [usize; N]) {
         }
         i += 1;
     }
-    if N >= 1 {
-        kani::cover!(pos == Some(N / 2), "middle (or only) member removed");
-    }
-    kani::cover!(pos.is_none(), "absent member");
+    let w = if N >= 1 { pos == Some(N / 2) } else { pos.is_none() };
+    kani::cover!(w, "witness: middle (or only) member removed");
     std::mem::forget(l);
 }
 
@@ -554,10 +554,8 @@ fn body_rank<K: KB, const N: usize>(h: [usize; N]) {
         }
     }
     assert!(l.len() == N && l.is_empty() == (N == 0), "len / is_empty");
-    if N >= 1 {
-        kani::cover!(rk == Some(N - 1), "rank of the last member");
-    }
-    kani::cover!(rk.is_none(), "absent");
+    let w = if N >= 1 { rk == Some(N - 1) } else { rk.is_none() };
+    kani::cover!(w, "witness: rank of the last member");
     let sn = check_inv(&l);
     assert!(sn.n == N, "queries do not change the list");
     std::mem::forget(l);
@@ -589,8 +587,7 @@ fn body_by_rank<K: KB, const N: usize>(h: [usize; N]) {
         }
         i += 1;
     }
-    kani::cover!(exp_n == N && b == usize::MAX, "whole list, stop = usize::MAX");
-    kani::cover!(a > b, "reversed bounds");
+    kani::cover!(exp_n == N && b == usize::MAX && r == N.wrapping_sub(1), "witness: whole list, stop = usize::MAX, get_by_rank(last)");
     let sn = check_inv(&l);
     assert!(sn.n == N, "queries do not change the list");
     std::mem::forget(l);
@@ -614,11 +611,8 @@ fn body_by_score<K: KB, const N: usize>(h: [usize; N]) {
         i += 1;
     }
     assert!(rr.items.len() == exp_n, "range_by_score returns nothing outside the bounds");
-    kani::cover!(exp_n == N && lo == f64::NEG_INFINITY && hi == f64::INFINITY, "whole list, -inf..+inf");
-    kani::cover!(lo > hi, "reversed bounds");
-    if N >= 2 {
-        kani::cover!(exp_n == 1 && lo == hi, "point query");
-    }
+    let w = if N >= 2 { exp_n == 1 && lo == hi } else { exp_n == N && lo == f64::NEG_INFINITY };
+    kani::cover!(w, "witness: point query selecting one member");
     let sn = check_inv(&l);
     assert!(sn.n == N, "queries do not change the list");
     std::mem::forget(l);
@@ -640,26 +634,79 @@ fn body_nan_consequence<K: KB>() {
 }
 
 // ---------------------------------------------------------------- harnesses
-macro_rules! skl {
-    ($name:ident, $unw:expr, $body:expr) => {
-        #[kani::proof]
-        #[kani::unwind($unw)]
-        #[kani::stub(SkipList::random_level, rl_stub)]
-        fn $name() {
-            $body;
-        }
-    };
+// Written out one by one (replay.py looks for `fn <name>(` in this file).
+// Name scheme: h<towers> = tower heights of the pre-state nodes in chain order, l<k> = level
+// handed out by the random_level stub (concrete: a symbolic level makes `vec![None; level + 1]`
+// a symbolic-size allocation, which runs CBMC out of memory).  unwind 5 = CAP + 1.
+#[kani::proof]
+#[kani::unwind(5)]
+#[kani::stub(SkipList::random_level, rl_stub)]
+fn c04_build_h213() {
+    body_build::<u8, 3>([2, 1, 3]);
 }
-
-skl!(c04_build_h213, 5, body_build::<u8, 3>([2, 1, 3]));
-skl!(c04_insert_h121, 5, body_insert::<u8, 3>([1, 2, 1], Who::Any, None));
-skl!(c04_remove_h213, 5, body_remove::<u8, 3>([2, 1, 3]));
-skl!(c04_rank_h213, 5, body_rank::<u8, 3>([2, 1, 3]));
-skl!(c04_byrank_h213, 5, body_by_rank::<u8, 3>([2, 1, 3]));
-skl!(c04_byscore_h213, 5, body_by_score::<u8, 3>([2, 1, 3]));
-
-// experiments
-skl!(x_ins_a, 5, body_insert::<u8, 3>([1, 2, 1], Who::Any, Some(1)));
-skl!(x_ins_b, 5, body_insert::<u8, 3>([1, 2, 1], Who::New, None));
-skl!(x_ins_c, 5, body_insert::<u8, 2>([1, 2], Who::Any, None));
-skl!(x_rem_v, 5, body_remove::<Vec<u8>, 2>([2, 1]));
+#[kani::proof]
+#[kani::unwind(5)]
+#[kani::stub(SkipList::random_level, rl_stub)]
+fn c04_remove_h213() {
+    body_remove::<u8, 3>([2, 1, 3]);
+}
+#[kani::proof]
+#[kani::unwind(5)]
+#[kani::stub(SkipList::random_level, rl_stub)]
+fn c04_rescore_h121_l1() {
+    body_insert::<u8, 3>([1, 2, 1], Who::Existing, Some(1));
+}
+#[kani::proof]
+#[kani::unwind(5)]
+#[kani::stub(SkipList::random_level, rl_stub)]
+fn c04_insert_new_h121_l1() {
+    body_insert::<u8, 3>([1, 2, 1], Who::New, Some(1));
+}
+#[kani::proof]
+#[kani::unwind(5)]
+#[kani::stub(SkipList::random_level, rl_stub)]
+fn c04_insert_h12_l2() {
+    body_insert::<u8, 2>([1, 2], Who::Any, Some(2));
+}
+#[kani::proof]
+#[kani::unwind(5)]
+#[kani::stub(SkipList::random_level, rl_stub)]
+fn c04_insert_h12_l1() {
+    body_insert::<u8, 2>([1, 2], Who::Any, Some(1));
+}
+#[kani::proof]
+#[kani::unwind(5)]
+#[kani::stub(SkipList::random_level, rl_stub)]
+fn c04_insert_empty_l0() {
+    body_insert::<u8, 0>([], Who::Any, Some(0));
+}
+#[kani::proof]
+#[kani::unwind(5)]
+#[kani::stub(SkipList::random_level, rl_stub)]
+fn c04_rank_h213() {
+    body_rank::<u8, 3>([2, 1, 3]);
+}
+#[kani::proof]
+#[kani::unwind(5)]
+#[kani::stub(SkipList::random_level, rl_stub)]
+fn c04_byrank_h213() {
+    body_by_rank::<u8, 3>([2, 1, 3]);
+}
+#[kani::proof]
+#[kani::unwind(5)]
+#[kani::stub(SkipList::random_level, rl_stub)]
+fn c04_byscore_h213() {
+    body_by_score::<u8, 3>([2, 1, 3]);
+}
+#[kani::proof]
+#[kani::unwind(5)]
+#[kani::stub(SkipList::random_level, rl_stub)]
+fn c04_v_remove_h21() {
+    body_remove::<Vec<u8>, 2>([2, 1]);
+}
+#[kani::proof]
+#[kani::unwind(5)]
+#[kani::stub(SkipList::random_level, rl_stub)]
+fn c04_v_insert_h12_l1() {
+    body_insert::<Vec<u8>, 2>([1, 2], Who::Any, Some(1));
+}
